@@ -444,6 +444,7 @@ type cfgT struct {
 	closeTimeout time.Duration // 0: 3 s
 	linktest     time.Duration // 0: disabled
 	blockData    bool
+	parkable     bool // the library's pipe ends are parkConns (parkwrite class)
 }
 
 type dialFn func(attempt int, ctx context.Context) (net.Conn, error)
@@ -472,6 +473,9 @@ type env struct {
 	dataRelease chan struct{}
 	dataEntered chan struct{}
 	nDials      atomic.Int32
+	nListens    atomic.Int32
+	parkMu      sync.Mutex
+	parks       []*parkConn
 	hung        bool
 	allConns    struct {
 		sync.Mutex
@@ -490,10 +494,47 @@ func (e *env) pipe() (lib net.Conn, peerEnd net.Conn) {
 	a, b := net.Pipe()
 	e.track(a)
 	e.track(b)
+	lib = a
 	if e.cfg.buffered {
-		return &bufConn{Conn: a, br: bufio.NewReaderSize(a, 4096)}, b
+		lib = &bufConn{Conn: a, br: bufio.NewReaderSize(a, 4096)}
 	}
-	return a, b
+	if e.cfg.parkable {
+		pk := &parkConn{Conn: lib, parked: make(chan struct{}), release: make(chan error, 1)}
+		e.parkMu.Lock()
+		e.parks = append(e.parks, pk)
+		e.parkMu.Unlock()
+		lib = pk
+	}
+	return lib, b
+}
+
+// parkConn is the library's end of a pipe, owned by the harness, that can PARK one Write: once
+// armed, the next Write does not reach the pipe, signals parked and blocks - also across Close of
+// the conn, like a write stuck below the socket layer - until the harness releases it with an
+// error. Everything else passes through.
+type parkConn struct {
+	net.Conn
+	armed   atomic.Bool
+	parked  chan struct{}
+	release chan error
+}
+
+func (p *parkConn) Write(b []byte) (int, error) {
+	if p.armed.CompareAndSwap(true, false) {
+		close(p.parked)
+		return 0, <-p.release
+	}
+	return p.Conn.Write(b)
+}
+
+// lastPark is the parkConn of the most recent pipe handed to the library.
+func (e *env) lastPark() *parkConn {
+	e.parkMu.Lock()
+	defer e.parkMu.Unlock()
+	if len(e.parks) == 0 {
+		return nil
+	}
+	return e.parks[len(e.parks)-1]
 }
 
 // dialOK is the default dial behaviour: a fresh pipe, its peer end queued for the scenario.
@@ -538,6 +579,7 @@ func newEnv(cfg cfgT) (*env, error) {
 		return f(n, ctx)
 	}
 	listen := func(context.Context, string, string) (net.Listener, error) {
+		e.nListens.Add(1)
 		l := &pipeListener{conns: make(chan net.Conn), closed: make(chan struct{})}
 		select {
 		case e.lisCh <- l:
@@ -791,6 +833,14 @@ func (e *env) finish() {
 	default:
 		close(e.dataRelease)
 	}
+	e.parkMu.Lock()
+	for _, pk := range e.parks {
+		select {
+		case pk.release <- errors.New("rig: scenario over"):
+		default:
+		}
+	}
+	e.parkMu.Unlock()
 	if !e.hung {
 		e.closeConn()
 	}
